@@ -150,7 +150,7 @@ RULES["C13"] = (
     "by a fault-free rehearsal on a pristine twin and optionally carrying one fault (io errno at the k-th scratch-file operation, "
     "reader raise/short at item j, invalid item in a later block, cancellation at the n-th traced line). After every call: deep "
     "snapshots of inputs and parameter objects, temp-directory listing, twin memo, same-seed-same-model. Non-trivial = at least one "
-    "fault actually fired inside a call; distinct = distinct (family, sequence of operation kinds with the fault kind that fired in "
+    "fault actually fired inside a call (a further kind, task:alloc-failure, makes one chunk task of a multi-threaded co-occurrence call raise MemoryError at its n-th traced line); distinct = distinct (family, sequence of operation kinds with the fault kind that fired in "
     "each, set of fired fault kinds)."
 )
 
@@ -233,10 +233,10 @@ REQUIRED_PROBES = {
     "C13": {
         "quick": ["blockwise-fit", "memo-compared", "same-model-checked", "transform-after-faulted-transform", "cancel@line",
                   "reader:raise", "reader:short", "io:ENOSPC@mkdtemp", "io:ENOSPC@memmap-create", "io:EIO@memmap-flush",
-                  "io:EIO@memmap-open", "data:nan", "hashseed-pairs-compared"],
+                  "io:EIO@memmap-open", "data:nan", "hashseed-pairs-compared", "task:alloc-failure"],
         "thorough": ["blockwise-fit", "memo-compared", "same-model-checked", "transform-after-faulted-transform", "cancel@line",
                      "reader:raise", "reader:short", "io:ENOSPC@mkdtemp", "io:ENOSPC@memmap-create", "io:EIO@memmap-flush",
-                     "io:EIO@memmap-open", "data:nan", "io:EACCES@rmtree", "hashseed-pairs-compared"],
+                     "io:EIO@memmap-open", "data:nan", "io:EACCES@rmtree", "hashseed-pairs-compared", "task:alloc-failure"],
     },
     "C04": {
         "quick": ["growth", "depth>=2", "path.merge_all_sum_duplicates", "volume>capacity", "path.coo_increase_mem",
